@@ -143,6 +143,7 @@ _METHODS = {
     (set, "issubset"),
 }
 _MODULE_FUNCS = {
+    ("math", "isnan"): math.isnan,
     ("itertools", "combinations"): lambda it, r: list(__import__("itertools").combinations(it, r)),
     ("itertools", "product"): lambda *a: list(__import__("itertools").product(*a)),
     ("itertools", "combinations_with_replacement"): lambda it, r: list(__import__("itertools").combinations_with_replacement(it, r)),
@@ -385,6 +386,9 @@ class Folder:
                     if name in ("keys", "values", "items"):
                         r = list(r)
                     return r
+            # method of an abstract object supplied by the rule (a stub standing for `self`, a residue, ...)
+            if getattr(recv, "_folder_stub", False) and callable(getattr(recv, f.attr, None)):
+                return getattr(recv, f.attr)(*self._elts(n.args))
             raise NotConst(f"method {f.attr}")
         raise NotConst("call")
 
